@@ -258,9 +258,12 @@ func (a *authzRun) matrix(idx int) {
 	w.Fund(avsA)
 	w.Fund(avsB)
 	owner, nonOwner := a.user, a.user2
-	regArgs := func(sender *sim.Account, name string, minSelf uint64) []interface{} {
+	regArgsO := func(sender *sim.Account, name string, minSelf uint64, owners []string) []interface{} {
 		return []interface{}{sender.Eth, name, uint64(1), avsA.Eth, common.HexToAddress("0x0000000000000000000000000000000000000902"), common.HexToAddress("0x0000000000000000000000000000000000000903"),
-			[]string{owner.Acc.String()}, []string{lst.ID}, uint64(50), minSelf, "minute", []uint64{1, 1, 5, 5}}
+			owners, []string{lst.ID}, uint64(50), minSelf, "minute", []uint64{1, 1, 5, 5}}
+	}
+	regArgs := func(sender *sim.Account, name string, minSelf uint64) []interface{} {
+		return regArgsO(sender, name, minSelf, []string{owner.Acc.String()})
 	}
 	avsBefore := sim.ParseAVS(w.Last.Raw)
 	p := map[string]string{}
@@ -270,6 +273,8 @@ func (a *authzRun) matrix(idx int) {
 		avsBefore = sim.ParseAVS(w.Last.Raw)
 		a.wrong("avs.updateAVS", "other-contract-without-avs|owner-sender", w.CallFrom("avs.updateAVS", avsB, "avs", sim.AddrAVS, "updateAVS", p, regArgs(owner, "avs2-"+tag, 1)...))
 		a.wrong("avs.updateAVS", "avs-contract|non-owner-sender", w.CallFrom("avs.updateAVS", avsA, "avs", sim.AddrAVS, "updateAVS", p, regArgs(nonOwner, "avs2-"+tag, 1)...))
+		a.wrong("avs.updateAVS", "avs-contract|non-owner-sender-naming-itself-owner", w.CallFrom("avs.updateAVS", avsA, "avs", sim.AddrAVS, "updateAVS", p, regArgsO(nonOwner, "avs2-"+tag, 1, []string{nonOwner.Acc.String()})...))
+		a.wrong("avs.updateAVS", "avs-contract|non-owner-sender-adding-itself-to-the-owners", w.CallFrom("avs.updateAVS", avsA, "avs", sim.AddrAVS, "updateAVS", p, regArgsO(nonOwner, "avs2-"+tag, 1, []string{owner.Acc.String(), nonOwner.Acc.String()})...))
 		a.wrong("avs.updateAVS", "forwarding-contract<-avs-eoa|owner-sender", w.CallVia("avs.updateAVS", avsA, a.other, "avs", sim.AddrAVS, "updateAVS", p, regArgs(owner, "avs2-"+tag, 1)...))
 		if a.right("avs.updateAVS", w.CallFrom("avs.updateAVS", avsA, "avs", sim.AddrAVS, "updateAVS", p, regArgs(owner, "avs2-"+tag, 0)...)) {
 			a.boundTo("avs.updateAVS", avsBefore, avsA)
@@ -427,11 +432,14 @@ func (a *authzRun) boundTo(entry string, before map[string]avstypes.AVSInfo, avs
 
 func (a *authzRun) prices(tag string) {
 	w := a.w
+	// the victim is the validator with the least power (its report alone does not finalise the round, so a second
+	// creator's message in the same transaction is still accepted)
 	var victim *sim.ConsKey
+	var vpow int64
 	for _, o := range w.Opers {
 		for _, k := range o.Keys {
-			if _, ok := w.Last.Dog.Validators[fmt.Sprintf("%X", k.ConsAddr().Bytes())]; ok && victim == nil {
-				victim = k
+			if v, ok := w.Last.Dog.Validators[fmt.Sprintf("%X", k.ConsAddr().Bytes())]; ok && (victim == nil || v.Power < vpow) {
+				victim, vpow = k, v.Power
 			}
 		}
 	}
@@ -491,6 +499,52 @@ func (a *authzRun) prices(tag string) {
 		a.wrong(entry, id.name+"|CheckTx", w.CheckTxStep(entry, bz, false, pp, nil))
 		a.wrong(entry, id.name+"|ReCheckTx", w.CheckTxStep(entry, bz, true, pp, nil))
 		a.wrong(entry, id.name+"|DeliverTx", w.RawTxStep(entry, bz, pp, nil))
+	}
+	// no signer info at all
+	if bz, err := w.C.OracleTxMulti(nil, mk(vc, 1)); err == nil {
+		pp := map[string]string{"identity": "no-signer-info"}
+		a.wrong(entry, "no-signer-info|CheckTx", w.CheckTxStep(entry, bz, false, pp, nil))
+		a.wrong(entry, "no-signer-info|DeliverTx", w.RawTxStep(entry, bz, pp, nil))
+	}
+	// two messages of two creators in one transaction: the first slot is genuine, the second names another
+	// validator as creator but carries an outsider's key and signature
+	var second *sim.ConsKey
+	for _, o := range w.Opers {
+		for _, k := range o.Keys {
+			if _, ok := w.Last.Dog.Validators[fmt.Sprintf("%X", k.ConsAddr().Bytes())]; ok && k != victim && second == nil {
+				second = k
+			}
+		}
+	}
+	if second != nil {
+		sc := sim.OracleCreator(second)
+		entry2 := "oracle.CreatePrice(two creators)"
+		forged := [][]sim.OracleSlot{
+			{{Pub: victim, Sign: victim}, {Pub: outsider, Sign: outsider}},
+			{{Pub: victim, Sign: victim}, {Pub: second, Sign: outsider}},
+			{{Pub: victim, Sign: victim}},
+			{{Pub: outsider, Sign: outsider}, {Pub: second, Sign: second}},
+		}
+		names := []string{"second-slot-outsider-key-and-signature", "second-slot-validators-pubkey-outsiders-signature", "second-signer-missing", "first-slot-outsider-second-genuine"}
+		for k, slots := range forged {
+			bz, err := w.C.OracleTxMulti(slots, mk(vc, 1), mk(sc, 1))
+			if err != nil {
+				continue
+			}
+			pp := map[string]string{"identity": names[k]}
+			a.wrong(entry2, names[k]+"|CheckTx", w.CheckTxStep(entry2, bz, false, pp, nil))
+			a.wrong(entry2, names[k]+"|DeliverTx", w.RawTxStep(entry2, bz, pp, nil))
+		}
+		if bz, err := w.C.OracleTxMulti([]sim.OracleSlot{{Pub: victim, Sign: victim}, {Pub: second, Sign: second}}, mk(vc, 1), mk(sc, 1)); err == nil {
+			if a.right(entry2, w.RawTxStep(entry2, bz, map[string]string{"identity": "both validators"}, nil)) {
+				// the single-creator twin below would now be a nonce replay; it was established by this transaction too
+				for _, id := range a.pending[entry] {
+					a.s.Case(entry + "|" + id)
+				}
+				delete(a.pending, entry)
+				return
+			}
+		}
 	}
 	bz, err := w.C.OracleTx(victim, sim.OracleTxOpts{}, mk(vc, 1))
 	if err != nil {
